@@ -1775,3 +1775,196 @@ func ruleLIT2(c *Ctx) {
 		c.fail("string-token-text/count", nil, fmt.Sprintf("expected the string arms of parseOperand and parseMapElementLit, found %d uses of the token text", n))
 	}
 }
+
+// COPY.3 (C11): a copied closure keeps its variables. A function literal that
+// refers to a global still refers to the same global after copy(); for the
+// same statements to mean the same inside a function or module body, a
+// captured local must stay shared as well: CompiledFunction.Copy hands the
+// receiver's variable cells on and makes none of its own. (That the clones of
+// a Compiled then share closure state is the listed C08 finding - the two
+// properties pull in opposite directions here, and tengo sides with C11.)
+func ruleCOPY3(c *Ctx) {
+	w := c.W
+	p := w.Root
+	fd := w.FuncDecl(p, "CompiledFunction.Copy")
+	if fd == nil {
+		c.anchor("CompiledFunction.Copy")
+		return
+	}
+	var made ast.Node
+	ast.Inspect(fd.Body, func(n ast.Node) bool {
+		switch x := n.(type) {
+		case *ast.CompositeLit:
+			if namedIs(p.TypesInfo.TypeOf(x), p.Types, "ObjectPtr") {
+				made = x
+			}
+		case *ast.CallExpr:
+			if IsBuiltinCall(p, x, "new") && len(x.Args) == 1 && namedIs(p.TypesInfo.TypeOf(x.Args[0]), p.Types, "ObjectPtr") {
+				made = x
+			}
+		}
+		return made == nil
+	})
+	c.check(made == nil, "closure-copy/cells-shared", fd, "the copy refers to the same captured variables as the original", "CompiledFunction.Copy makes variable cells of its own: a copied closure over a local no longer sees writes through the original (and the other way round), while a copied function that refers to a global still does - the same statements then compute different values at top level and inside a function or module body")
+	// and it does hand them on
+	keeps := containsNode(fd.Body, func(n ast.Node) bool {
+		kv, ok := n.(*ast.KeyValueExpr)
+		if !ok || w.Src(kv.Key) != "Free" {
+			return false
+		}
+		return containsNode(kv.Value, func(m ast.Node) bool {
+			f, _ := func() (*types.Var, ast.Expr) {
+				if e, ok := m.(ast.Expr); ok {
+					return FieldSel(p, e)
+				}
+				return nil, nil
+			}()
+			return f != nil && f.Name() == "Free"
+		})
+	})
+	c.check(keeps, "closure-copy/cells-handed-on", fd, "Free of the copy is built from the receiver's Free", "the copy's captured-variable list is not built from the receiver's")
+}
+
+// OPT.6 (C03, C09): the optimizer removes only dead code. In the pass of
+// optimizeFunc that copies instructions into the new stream, an instruction is
+// skipped (the callback returns before the copy) only under the dead-code flag
+// - the boolean the pass sets after a RET and clears at a jump destination.
+// Any other reason to drop an instruction ("IMMUT after IMMUT is a no-op",
+// say) ignores that the second one may be a jump target whose path never ran
+// the first.
+func ruleOPT6(c *Ctx) {
+	w := c.W
+	p := w.Root
+	opt := w.FuncDecl(p, "Compiler.optimizeFunc")
+	if opt == nil {
+		c.anchor("Compiler.optimizeFunc")
+		return
+	}
+	var pass *ast.FuncLit
+	var copyAt token.Pos
+	ast.Inspect(opt.Body, func(n ast.Node) bool {
+		fl, ok := n.(*ast.FuncLit)
+		if !ok {
+			return true
+		}
+		ast.Inspect(fl.Body, func(m ast.Node) bool {
+			call, ok := m.(*ast.CallExpr)
+			if ok && Callee(p, call) != nil && Callee(p, call).Name() == "MakeInstruction" && call.Ellipsis.IsValid() {
+				pass, copyAt = fl, call.Pos()
+			}
+			return true
+		})
+		return true
+	})
+	if pass == nil {
+		c.anchor("the copying pass of optimizeFunc (MakeInstruction(opcode, operands...))")
+		return
+	}
+	// the dead-code flag: a bool variable the pass sets to true
+	flags := map[types.Object]bool{}
+	ast.Inspect(pass.Body, func(n ast.Node) bool {
+		as, ok := n.(*ast.AssignStmt)
+		if !ok || len(as.Lhs) != 1 || len(as.Rhs) != 1 {
+			return true
+		}
+		if v, isB := constBool(p, as.Rhs[0]); isB && v {
+			if id, ok := as.Lhs[0].(*ast.Ident); ok {
+				flags[p.TypesInfo.ObjectOf(id)] = true
+			}
+		}
+		return true
+	})
+	if len(flags) == 0 {
+		c.anchor("the dead-code flag of optimizeFunc")
+		return
+	}
+	mentionsFlag := func(e ast.Node) bool {
+		return containsNode(e, func(m ast.Node) bool {
+			id, ok := m.(*ast.Ident)
+			return ok && flags[p.TypesInfo.ObjectOf(id)]
+		})
+	}
+	seq := seqKeys{}
+	n := 0
+	inspectWithStack(pass.Body, func(nd ast.Node, stack []ast.Node) bool {
+		r, ok := nd.(*ast.ReturnStmt)
+		if !ok || r.Pos() > copyAt {
+			return true
+		}
+		n++
+		under := false
+		for i, a := range stack {
+			switch x := a.(type) {
+			case *ast.IfStmt:
+				if i+1 < len(stack) && stack[i+1] == ast.Node(x.Body) && mentionsFlag(x.Cond) {
+					under = true
+				}
+			case *ast.CaseClause:
+				for _, e := range x.List {
+					if mentionsFlag(e) {
+						under = true
+					}
+				}
+			}
+		}
+		c.check(under, seq.next("skip-only-dead-code"), r, "the instruction is skipped under the dead-code flag", "the copying pass skips an instruction for a reason other than dead code: an instruction that some path executes (a jump may land on it) is removed from the function")
+		return true
+	})
+	if n < 2 {
+		c.fail("skip-only-dead-code/count", pass, fmt.Sprintf("expected the two skips of dead instructions, found %d", n))
+	}
+}
+
+// SEM.4 (C01): the compiler is syntax-directed: it compiles the tree it is
+// given. No function of the compiler builds syntax-tree nodes of its own,
+// except the one tabled desugaring (`x++` is `x += 1`: the literal 1). A
+// rewritten tree is where algebraic "optimisations" enter that do not hold
+// for every value - `!(a < b)` is not `a >= b` when an operand is NaN.
+func ruleSEM4(c *Ctx) {
+	w := c.W
+	p := w.Root
+	nodeI, _ := w.Parser.Types.Scope().Lookup("Node").Type().Underlying().(*types.Interface)
+	if nodeI == nil {
+		c.anchor("parser.Node")
+		return
+	}
+	tabled := map[string]string{"IncDecStmt/IntLit": "`x++` / `x--` compile as `x += 1` / `x -= 1`: the literal 1"}
+	seq := seqKeys{}
+	n := 0
+	w.AllFuncDecls(p, func(fd *ast.FuncDecl) {
+		if fd.Recv == nil || !strings.HasPrefix(funcKey(fd), "Compiler.") {
+			return
+		}
+		inspectWithStack(fd.Body, func(nd ast.Node, stack []ast.Node) bool {
+			cl, ok := nd.(*ast.CompositeLit)
+			if !ok {
+				return true
+			}
+			t := p.TypesInfo.TypeOf(cl)
+			nt, ok := t.(*types.Named)
+			if !ok || nt.Obj().Pkg() != w.Parser.Types || !types.Implements(types.NewPointer(nt), nodeI) {
+				return true
+			}
+			n++
+			ctx := ""
+			for i := len(stack) - 1; i >= 0; i-- {
+				if cc, ok := stack[i].(*ast.CaseClause); ok && len(cc.List) == 1 {
+					if tv, ok := p.TypesInfo.Types[cc.List[0]]; ok && tv.IsType() {
+						ctx, _ = namedName(tv.Type)
+						break
+					}
+				}
+			}
+			k := ctx + "/" + nt.Obj().Name()
+			if why, ok := tabled[k]; ok {
+				c.ok(seq.next("synthesized-node/"+k), cl, "tabled: "+why)
+				return true
+			}
+			c.fail(seq.next("synthesized-node/"+funcKey(fd)+"/"+k), cl, "the compiler builds a syntax-tree node of its own ("+w.Src(cl)+") and compiles that instead of the tree it was given: a rewrite of the program that must then be right for every operand value (NaN, overflow, side effects and their order)")
+			return true
+		})
+	})
+	if n < 1 {
+		c.fail("synthesized-node/count", nil, "the tabled desugaring of IncDecStmt was not found")
+	}
+}
